@@ -1308,4 +1308,49 @@ end
 def setGlobals (reg : Registry.Reg) (globals : Frame) : Bool :=
   reg.all fun t => (globalsBlock t.body).all fun n => (Frame.find globals n).isSome
 
+/-! ### soy.ParseGlobals (globals.go): `<name> = <expression>` lines
+
+  `bufio.Scanner` lines (split at LF, one trailing CR dropped), empty lines and lines starting with `//`
+  skipped, the first `=` separates name and expression, both trimmed (ASCII white space is modelled;
+  the lines the correspondence generates contain no other Unicode space), the expression is parsed by
+  parse.Expr (the parsed trees are an input here: `some e`, or `none` where the parser rejects the text)
+  and evaluated by EvalExpr with NO globals; a later line overwrites an earlier one of the same name. -/
+
+def splitLines : Bytes → Bytes → List Bytes
+  | cur, [] => if cur.isEmpty then [] else [cur.reverse]
+  | cur, b :: r => if b == 10 then cur.reverse :: splitLines [] r else splitLines (b :: cur) r
+
+def dropCR (l : Bytes) : Bytes :=
+  match l.reverse with
+  | 13 :: r => r.reverse
+  | _ => l
+
+def isSpaceB (b : UInt8) : Bool := b == 32 || b == 9 || b == 10 || b == 11 || b == 12 || b == 13
+
+def trimSpace (s : Bytes) : Bytes := ((s.dropWhile isSpaceB).reverse.dropWhile isSpaceB).reverse
+
+def splitEq : Bytes → Bytes → Option (Bytes × Bytes)
+  | _, [] => none
+  | acc, b :: r => if b == 61 then some (acc.reverse, r) else splitEq (b :: acc) r
+
+/-- the loop of ParseGlobals over the lines; `trees` = the parse results of the expression texts met so far -/
+def parseGlobalsLines : List Bytes → List (Option Expr) → Frame → Option Frame
+  | [], _, acc => some acc
+  | l :: rest, trees, acc =>
+    let line := dropCR l
+    if line.isEmpty || isPrefix [47, 47] line then parseGlobalsLines rest trees acc
+    else match splitEq [] line with
+      | none => none                                   -- "no equals on line"
+      | some (name, _) =>
+        match trees with
+        | [] => none
+        | none :: _ => none                            -- parse.Expr failed
+        | some e :: trees' =>
+          match evalExprEntry [] e with
+          | none => none
+          | some v => parseGlobalsLines rest trees' (Value.insert acc (trimSpace name) v)
+
+def parseGlobals (input : Bytes) (trees : List (Option Expr)) : Option Frame :=
+  parseGlobalsLines (splitLines [] input) trees []
+
 end SoyVerif.Model.Eval
